@@ -129,7 +129,11 @@ def run_linop(ctx, prop, prop_file, n_quick, n_thorough, want):
     ctx.obligation("translate:sigpy/linop.py adjoint/normal table", not tr_err)
     if tr_err:
         ctx.notes.append("translator failed closed: %s" % tr_err)
-    proof_ok = ctx.prove(prop_file) and not tr_err
+    # tie by translation of the DENOTATION: gen/Gen_linop_apply.v is regenerated from every `_apply` (and Linop.apply / __call__ /
+    # the overloads) of the tree under test and compiled; its `_ok` lemmas state generated == the clauses of `den`
+    from tools import translate_linop_apply
+    tie_broken = translate_linop_apply.tie(ctx)
+    proof_ok = ctx.prove(prop_file) and not tr_err and not tie_broken
     sp = core.import_sigpy()
     rng = ctx.rng
     ctx.source_hash("sigpy/linop.py", "sigpy/util.py", "sigpy/block.py")
@@ -368,12 +372,14 @@ def run_linop(ctx, prop, prop_file, n_quick, n_thorough, want):
                        "n_disagreements": len(idxs)},
                       found_input=False, signature="%s:corr:%s" % (prop, cls))
     if (not proof_ok or not corr_ok) and not ctx.violations:
-        broken = getattr(ctx, "broken_proof", {"theorem": "corr:coq-run"})
+        broken = getattr(ctx, "broken_proof", tie_broken or {"theorem": "corr:coq-run"})
         ctx.violation("proof obligation no longer checks: %s" % broken.get("theorem"), {"kind": "proof", "broken": broken},
                       found_input=False, signature=prop + ":proof")
     ctx.trusted += [
         "Coq 8.16.1 kernel + vm_compute (PrimFloat primitives only for running models)",
-        "hand model coq/model/Linop.v of sigpy/linop.py, tied by this run's exact structural comparison (adj/normal/shapes) and value comparison",
+        "hand model coq/model/Linop.v of sigpy/linop.py, tied by this run's exact structural comparison (adj/normal/shapes) and value comparison; "
+        "its denotation `den` also by translation of every `_apply` (gen/Gen_linop_apply.v, lemmas gen_apply_<Class>_ok): trusted there are the "
+        "numpy readings of the generated PRELUDE (notes/translate_linop_apply.md)",
         "library-backed leaves (FFT, NUFFT, interpolation, wavelets, convolution) enter `den` through the standard oracle orc_std "
         "(coq/model/OpaqueStd.v: the function models of C05-C08 / C10 with the classes' argument passing), run on floats from oracle "
         "tables: DFT twiddle factors (validated in Coq), Kaiser-Bessel values and numpy.sinh at the bit-exact arguments, numpy.pi, "
